@@ -294,13 +294,24 @@ class CliResult:
         self.rc, self.out, self.err, self.exc = rc, out, err, exc
 
 
-def run_main(args):
+def run_main(args, real_files: bool = False):
     """graphtage.__main__.main(argv) in-process, observed at the boundary a user sees: stdout text, stderr text,
     return value / exit status, escaped exception.  Every call behaves like a fresh process as far as logging
     goes (basicConfig is effective only once per process, so the root handlers are cleared first)."""
     import graphtage.__main__ as gm
     from gv.core import CaseTimeout
-    out, err = KeepStringIO(), KeepStringIO()
+    paths = None
+    if real_files:
+        # streams with a real file descriptor: StatusWriter only buffers and goes through tqdm.write() when its stream *is*
+        # the process's stdout/stderr (this is the path every default command-line invocation takes)
+        import os
+        import tempfile
+        fo, po = tempfile.mkstemp(prefix="gv-out-", dir="/tmp")
+        fe, pe = tempfile.mkstemp(prefix="gv-err-", dir="/tmp")
+        out, err = os.fdopen(fo, "w", encoding="utf-8", errors="surrogatepass"), os.fdopen(fe, "w", encoding="utf-8", errors="replace")
+        paths = (po, pe)
+    else:
+        out, err = KeepStringIO(), KeepStringIO()
     old_out, old_err = sys.stdout, sys.stderr
     root = logging.getLogger()
     saved = root.handlers[:]
@@ -324,6 +335,19 @@ def run_main(args):
             except Exception:
                 pass
         root.handlers = saved
+    if paths is not None:
+        import os
+        texts = []
+        for f, p in ((out, paths[0]), (err, paths[1])):
+            try:
+                if not f.closed:
+                    f.close()
+            except Exception:
+                pass
+            with open(p, encoding="utf-8", errors="replace") as fh:
+                texts.append(fh.read())
+            os.unlink(p)
+        return CliResult(rc, texts[0], texts[1], exc)
     return CliResult(rc, out.value() or "", err.value() or "", exc)
 
 
